@@ -75,6 +75,7 @@ pub fn user_name_to_file_name(
     debug_assert!(!suffix.ends_with(['.', ' ']), "suffix must not end in period or space");
 
     result.push_str(prefix);
+    let mut prefix_len = prefix.len();
     for c in name.chars() {
         match c {
             // Replace an initial period with an underscore if there is no
@@ -110,6 +111,7 @@ pub fn user_name_to_file_name(
         // making the name safe.
         if SPECIAL_RESERVED.contains(&stem) {
             result.insert(0, '_');
+            prefix_len += 1;
         }
     }
 
@@ -123,12 +125,12 @@ pub fn user_name_to_file_name(
         result.truncate(boundary);
     }
 
-    // Replace trailing periods and spaces by underscores unless we have a
-    // suffix (which we asserted is safe).
+    // Replace trailing periods and spaces of the name by underscores unless we
+    // have a suffix (which we asserted is safe). Leave the prefix alone.
     if suffix.is_empty() && result.ends_with(['.', ' ']) {
         let mut boundary = result.len();
         for (i, c) in result.char_indices().rev() {
-            if c != '.' && c != ' ' {
+            if i < prefix_len || (c != '.' && c != ' ') {
                 break;
             }
             boundary = i;
